@@ -20,6 +20,7 @@ CONSTANTS
   DEV_LoadContactsClobbers = FALSE
   DEV_GoneUnlistedDropped = FALSE
   DEV_P2PLastDelSilent = FALSE
+  DEV_ReinviteNoTopicName = FALSE
   DEV_NewGrpNoSupd = FALSE
   DEV_StaleAcrossReload = FALSE
   Kinds = {"me", "grp", "member", "mute", "bg", "disc"}
